@@ -91,19 +91,24 @@ def build_file_response(path,
         raise NotFound(is_breaking=False)
     try:
         file_obj = open(path, 'rb')
-        mtime = get_file_mtime(path)
-        fsize = os.path.getsize(path)
     except (ValueError, IOError, OSError):
         raise Forbidden(is_breaking=False)
-    if not mimetype:
-        mimetype, encoding = mimetypes.guess_type(path)
-    if not mimetype:
-        peeked = peek_file(file_obj, 1024)
-        is_binary = is_binary_string(peeked)
-        if peeked and is_binary:
-            mimetype = default_binary_mime
-        else:
-            mimetype = default_text_mime
+    try:
+        mtime = get_file_mtime(path)
+        fsize = os.path.getsize(path)
+        if not mimetype:
+            mimetype, encoding = mimetypes.guess_type(path)
+        if not mimetype:
+            peeked = peek_file(file_obj, 1024)
+            is_binary = is_binary_string(peeked)
+            if peeked and is_binary:
+                mimetype = default_binary_mime
+            else:
+                mimetype = default_text_mime
+    except (ValueError, IOError, OSError):
+        # the file vanished or became unreadable after it was opened
+        file_obj.close()
+        raise Forbidden(is_breaking=False)
     resp.response = file_wrapper(file_obj)
     resp.content_type = mimetype
     resp.content_length = fsize
